@@ -515,6 +515,77 @@ func ruleR22_6(c *Check) {
 	}
 }
 
+func ruleR22_7(c *Check) {
+	w := c.W
+	r := c.Rule("R22.7", "E4", 4, "one load per step: in findNear and findSpliceForLevel the successor of the cursor is loaded exactly once per loop iteration (getNext(cursor, level) at one site, bound to the local whose key is then compared); every node returned or moved to afterwards is that compared local (or a successor of it), never a second load of the cursor's successor",
+		"between two loads of the same forward pointer a concurrent Put can link a node in: a node that was never compared is returned, so Seek lands before its target and Get misses a present key")
+	gn := w.Func("skl.Skiplist.getNext")
+	ck := w.Func("y.CompareKeys")
+	for _, name := range []string{"skl.Skiplist.findNear", "skl.Skiplist.findSpliceForLevel"} {
+		f := w.F(name)
+		// the compared local: the node whose key(…) feeds CompareKeys
+		var cmpNode types.Object
+		f.walk(func(n ast.Node) bool {
+			call, ok := n.(*ast.CallExpr)
+			if !ok || w.Callee(call) != types.Object(ck) {
+				return true
+			}
+			for _, a := range call.Args {
+				o := w.Origin(f, a)
+				if kc, ok := unparen(o).(*ast.CallExpr); ok && isCallNamed(w, kc, "key") {
+					if id, ok := unparen(recvOf(kc)).(*ast.Ident); ok {
+						cmpNode = w.Use(id)
+					}
+				}
+			}
+			return true
+		})
+		r.Check(cmpNode != nil, f, "compared node identified", nil, "no CompareKeys(key, <node>.key(…)) in "+name)
+		if cmpNode == nil {
+			continue
+		}
+		// its definition: getNext(cursor, level)
+		var cursor types.Object
+		loads := 0
+		var k keyer
+		for _, s := range f.Sites(selCall(gn)) {
+			call := s.(*ast.CallExpr)
+			id, _ := unparen(call.Args[0]).(*ast.Ident)
+			if id == nil {
+				continue
+			}
+			bound := false
+			if as, ok := w.parentOf(call).(*ast.AssignStmt); ok && len(as.Lhs) == 1 {
+				if lid, ok := as.Lhs[0].(*ast.Ident); ok && w.Use(lid) == cmpNode {
+					bound = true
+				}
+			}
+			if bound {
+				loads++
+				cursor = w.Use(id)
+			}
+		}
+		r.Check(loads == 1 && cursor != nil, f, "the cursor's successor is loaded at one site and compared", nil, "expected exactly one `next := getNext(cursor, level)` feeding the comparison in "+name)
+		if cursor == nil {
+			continue
+		}
+		for _, s := range f.Sites(selCall(gn)) {
+			call := s.(*ast.CallExpr)
+			id, _ := unparen(call.Args[0]).(*ast.Ident)
+			if id == nil {
+				r.Check(false, f, k.key("getNext applied to a named node", w, s), s, "getNext applied to "+short(w, call.Args[0]))
+				continue
+			}
+			if as, ok := w.parentOf(call).(*ast.AssignStmt); ok && len(as.Lhs) == 1 {
+				if lid, ok := as.Lhs[0].(*ast.Ident); ok && w.Use(lid) == cmpNode {
+					continue // the one load
+				}
+			}
+			r.Check(w.Use(id) != cursor, f, k.key("no second load of the cursor's successor", w, s), s, "the successor of the cursor is loaded again after the comparison: a node linked in between is used without having been compared")
+		}
+	}
+}
+
 func isNot(e ast.Expr) bool {
 	u, ok := unparen(e).(*ast.UnaryExpr)
 	return ok && u.Op == token.NOT
@@ -527,4 +598,5 @@ func propC22(c *Check) {
 	ruleR22_4(c)
 	ruleR22_5(c)
 	ruleR22_6(c)
+	ruleR22_7(c)
 }
